@@ -134,6 +134,10 @@ def harnesses(tier):
     hs += C01_normalize.harnesses(tier)
     from props import C01_transforms
     hs += C01_transforms.harnesses(tier)
+    # A12 for the two process-wide caches the condition of a rule is evaluated through (a rule whose condition is false, evaluated earlier, must not
+    # change what a later condition evaluates to): the contracts of C07 on parse_expression and regex() - a cache hit gives the cold result
+    from props import C07
+    hs += [h for h in C07.harnesses(tier) if h.name in ('parse_expression', '_fn_regex')]
     return hs
 
 
